@@ -4,6 +4,7 @@ package main
 
 import (
 	"fmt"
+	"math/rand"
 	"os"
 	"path/filepath"
 	"strings"
@@ -388,4 +389,188 @@ func cmdReplayStorage(args []string) error {
 
 func init() {
 	register("replay-storage", cmdReplayStorage)
+}
+
+// ---- code -> spec: random byte contents ----
+
+type stRefLine struct {
+	Off  int    `json:"off"`
+	Kind string `json:"kind"`
+}
+
+type stRefList struct {
+	ID    string      `json:"id"`
+	Ic    bool        `json:"ic"`
+	Lines []stRefLine `json:"lines"`
+}
+
+type stScanEv struct {
+	List string `json:"list"`
+	Off  int    `json:"off"`
+	Kind string `json:"kind"`
+	Same bool   `json:"same"`
+	Raw  string `json:"raw"`
+}
+
+type stRetrEv struct {
+	Ok   bool   `json:"ok"`
+	Kind string `json:"kind"`
+	Same bool   `json:"same"`
+}
+
+type stEvent struct {
+	Store string      `json:"store"`
+	Lists []stRefList `json:"lists"`
+	Scan  []stScanEv  `json:"scan"`
+	Retr  []stRetrEv  `json:"retr"`
+	Panic bool        `json:"panic"`
+	Note  string      `json:"note"`
+}
+
+func rndContent(rnd *rand.Rand) string {
+	var sb strings.Builder
+	if rnd.Intn(4) == 0 {
+		sb.WriteString("\xef\xbb\xbf")
+	}
+	n := rnd.Intn(12)
+	for i := 0; i < n; i++ {
+		var line string
+		switch rnd.Intn(9) {
+		case 0:
+			line = ""
+		case 1:
+			line = "! comment \u0085  "
+		case 2:
+			line = "0.0.0.0 h" + fmt.Sprint(i) + ".example"
+		case 3:
+			line = "||n" + fmt.Sprint(i) + ".example^" + strings.Repeat("x", []int{0, 0, 4090, 4096, 9000}[rnd.Intn(5)])
+		case 4:
+			line = "e.org##.c" + fmt.Sprint(i)
+		case 5:
+			line = mutateBytes(rnd, grammarLines[rnd.Intn(len(grammarLines))])
+		case 6:
+			line = "||nul\x00" + fmt.Sprint(i) + ".example^"
+		case 7:
+			line = "\u0085||nel" + fmt.Sprint(i) + ".example^ "
+		default:
+			line = grammarLines[rnd.Intn(len(grammarLines))]
+		}
+		line = strings.ReplaceAll(line, "\n", "")
+		sb.WriteString(line)
+		switch rnd.Intn(6) {
+		case 0:
+			sb.WriteString("\r\n")
+		case 1:
+			sb.WriteString("\r") // a lone CR does not end a line
+		case 2:
+			if i == n-1 {
+				break // no final newline
+			}
+			sb.WriteString("\n")
+		default:
+			sb.WriteString("\n")
+		}
+	}
+	return sb.String()
+}
+
+// vh drive-storage n=<storages> out=<trace.ndjson> dir=<tmpdir>
+func cmdDriveStorage(args []string) error {
+	m := argMap(args)
+	n := argInt(m, "n", 500)
+	out, err := newNDWriter(m["out"])
+	if err != nil {
+		return err
+	}
+	defer out.close()
+	rnd := rand.New(rand.NewSource(seed()*19 + 6))
+	idNames := []string{"min", "max", "zero", "neg", "pos"}
+	rulesSeen := 0
+	for out.n < 2*n {
+		nl := 1 + rnd.Intn(3)
+		perm := rnd.Perm(len(idNames))
+		var rls []renderedList
+		var ref []stRefList
+		for i := 0; i < nl; i++ {
+			content := rndContent(rnd)
+			rl := renderedList{id: listIDs[idNames[perm[i]]], ic: rnd.Intn(3) == 0, content: content}
+			rls = append(rls, rl)
+			// the reference parse, line by line, by the real NewRule
+			r := stRefList{ID: idNames[perm[i]], Ic: rl.ic, Lines: []stRefLine{}}
+			off := 0
+			for off < len(content) {
+				end := strings.IndexByte(content[off:], '\n')
+				var raw string
+				if end < 0 {
+					raw = content[off:]
+					end = len(content) - off
+				} else {
+					raw = content[off : off+end]
+					end++
+				}
+				rule, perr := rules.NewRule(raw, rl.id)
+				k := kindOfRule(rule, perr)
+				r.Lines = append(r.Lines, stRefLine{Off: off, Kind: k})
+				off += end
+			}
+			ref = append(ref, r)
+		}
+		nameOf := map[int]string{}
+		for k, v := range listIDs {
+			nameOf[v] = k
+		}
+		for _, store := range []string{"string", "file"} {
+			ev := stEvent{Store: store, Lists: ref, Scan: []stScanEv{}, Retr: []stRetrEv{}}
+			st, cleanup, err := makeStorage(rls, store == "file", m["dir"])
+			if err != nil {
+				return err
+			}
+			sc, pv := scanStorage(st)
+			if pv != "" {
+				ev.Panic, ev.Note = true, pv
+			}
+			contentOf := map[int]string{}
+			for _, rl := range rls {
+				contentOf[rl.id] = rl.content
+			}
+			for _, g := range sc {
+				id, off := int(int32(g.idx>>32)), int(uint32(g.idx))
+				c := contentOf[id]
+				same := false
+				if off <= len(c) {
+					end := strings.IndexByte(c[off:], '\n')
+					if end < 0 {
+						end = len(c) - off
+					}
+					same = strings.TrimSpace(c[off:off+end]) == g.text && g.id == id
+				}
+				ev.Scan = append(ev.Scan, stScanEv{List: nameOf[id], Off: off, Kind: g.kind, Same: same, Raw: fmt.Sprint(g.idx)})
+				rulesSeen++
+			}
+			st2, cleanup2, err := makeStorage(rls, store == "file", m["dir"])
+			if err != nil {
+				return err
+			}
+			for _, g := range sc {
+				var r rules.Rule
+				var rerr error
+				pv := safeCall(func() { r, rerr = st2.RetrieveRule(g.idx) })
+				e := stRetrEv{Ok: pv == "" && rerr == nil && r != nil}
+				if e.Ok {
+					e.Kind = kindOfRule(r, nil)
+					e.Same = r.Text() == g.text && r.GetFilterListID() == g.id
+				}
+				ev.Retr = append(ev.Retr, e)
+			}
+			cleanup2()
+			cleanup()
+			out.write(ev)
+		}
+	}
+	summary(map[string]any{"events": out.n, "rules_scanned": rulesSeen})
+	return nil
+}
+
+func init() {
+	register("drive-storage", cmdDriveStorage)
 }
